@@ -22,7 +22,7 @@ its parameters: both come from the same Go function body -/
 theorem Inv_executionAllowed_is_shell {S N : Type} (now : Int)
     (extGet : L → C → GoM (Gen.DlgTok D S))
     (extMS : Option S → N → (Int × Option S)) (extIPLD : A → GoM N)
-    (g : Gen.InvTok D C) (loader : L) (a : A) :
+    (g : Gen.InvTok D C A) (loader : L) (a : A) :
     Gen.Inv_executionAllowed now extGet extMS extIPLD g loader a =
       Gen.Inv_executionAllowed_shell (Gen.Inv_loadProofs extGet) Gen.Inv_verifyProofs (Gen.Inv_verifyTimeBound now)
         (Gen.Inv_verifyArgs extMS extIPLD) g loader a := rfl
@@ -32,7 +32,7 @@ theorem Inv_executionAllowed_is_shell {S N : Type} (now : Int)
 theorem Inv_executionAllowed_stages {X : Type} (x : X) (args : Node) (undef : D) (pol) (now : Int)
     (extGet : L → C → GoM (Gen.DlgTok D Policy.Stmt))
     (extIPLD : A → GoM Node)
-    (g : Gen.InvTok D C) (loader : L) (a : A) (hs : g.subject ≠ undef)
+    (g : Gen.InvTok D C A) (loader : L) (a : A) (hs : g.subject ≠ undef)
     (hlen : ∀ ds, Gen.Inv_loadProofs extGet g loader = .ok ds → ds.length = g.proof.length) :
     Gen.Inv_executionAllowed now extGet extMatch extIPLD g loader a =
       (Gen.Inv_loadProofs extGet g loader >>= fun ds =>
@@ -60,7 +60,7 @@ theorem Inv_executionAllowed_eq {X : Type} (x : X) (args : Node) (undef : D) (po
     (extGet : L → C → GoM (Gen.DlgTok D Policy.Stmt))
     (extIPLD : A → GoM Node)
     (ldG : C → Option (Gen.DlgTok D Policy.Stmt))
-    (g : Gen.InvTok D C) (loader : L) (a : A) (hs : g.subject ≠ undef)
+    (g : Gen.InvTok D C A) (loader : L) (a : A) (hs : g.subject ≠ undef)
     (hl : LoaderIs extGet loader ldG)
     (hipld : extIPLD a = .ok args)
     (hpol : ∀ c d, ldG c = some d → d.policy = (pol d).map some) :
